@@ -32,6 +32,8 @@ CHECKS = {
         "thorough": {"shards": 16, "rounds": 4, "checks": 300, "timeout": 3000},
         "exhaustive_subspace": "torn sub-check, thorough tier: every byte offset inside the last transaction's log range when the range is <= 400 bytes; everything else is sampled",
         "assumptions": [
+            "shared-transaction sub-check: a Put/Delete on a transaction that returned nil counts as a write of that transaction, whichever goroutine issued it; interleavings are sampled (replay re-executes up to 30 times)",
+            "buffer sub-check: a commit that reports an error is a failed transaction (no trace expected), not a violation by itself",
             "crash = process death at a hook site (child os.Exit); torn final write = truncation of the newest log file inside the last transaction's byte range",
             "concurrent visibility is decided per recorded execution; schedules are perturbed by a generated yield plan at batch/commit hook sites, not enumerated",
             "commit failures are provoked with a process file-size limit (RLIMIT_FSIZE, EFBIG after a partial write, like a full disk); other I/O errors (EIO, failing fsync, failing rename) are not injected",
